@@ -206,24 +206,24 @@ def run(ctx):
     rng = ctx.rng(1)
     with E.LeanEP() as L:
         t0 = time.time()
-        for i in range(ctx.n(30, 700)):
+        for i in range(ctx.n(30, 400)):
             one_case(L, rng, i, res, stats, raw_perturb=False)
         wall["B_tree_sequences"] = round(time.time() - t0, 1)
         t0 = time.time()
-        for i in range(ctx.n(20, 500)):
+        for i in range(ctx.n(20, 300)):
             one_case(L, rng, 100000 + i, res, stats, raw_perturb=True)
         wall["B_perturbed"] = round(time.time() - t0, 1)
     t0 = time.time()
     rng2 = ctx.rng(2)
     holder = {}
-    for i in range(ctx.n(3, 40)):
+    for i in range(ctx.n(3, 30)):
         rat_case(holder, rng2, 200000 + i, res, stats)
     if holder.get("L") is not None:
         holder["L"].close()
     wall["B_rat"] = round(time.time() - t0, 1)
     t0 = time.time()
     rng3 = ctx.rng(3)
-    for _ in range(ctx.n(12, 400)):
+    for _ in range(ctx.n(12, 250)):
         date_case(rng3, res, stats)
     wall["C_date"] = round(time.time() - t0, 1)
     stats["wall_s"] = wall
